@@ -318,7 +318,9 @@ func mfRenderDesc(c mfCase) (name, text string, files map[string]string) {
 	case cls == "xpath_invalid":
 		xpath("//a[")
 	default:
-		machinery("no renderer for description class %q", cls)
+		if !mfRenderDescSyntax(d, c.Format, cls, files) {
+			machinery("no renderer for description class %q", cls)
+		}
 	}
 	return "/scn/payload." + syn, d.text, files
 }
@@ -334,6 +336,9 @@ func mfRunDescCase(c mfCase) mfLine {
 	}
 	if c.Format == "pool" {
 		return mfRunPoolCase(c)
+	}
+	if c.Format == "cfg" {
+		return mfRunCfgCase(c)
 	}
 	name, text, files := mfRenderDesc(c)
 	evs, info := mfDescPipeline(c.Format, name, text, files)
@@ -573,6 +578,41 @@ func mfRunConfigCase(c mfCase) mfLine {
 	os.WriteFile(prop, []byte("file=/ammo.uri\nlimit=7\n"), 0o600)
 	m := map[string]interface{}{"decoder": "uri", "file": "${env:VERIF_C13_FILE}", "limit": "${env:VERIF_C13_INT}"}
 	switch c.Cls {
+	case "propfile":
+		// arg = <<lines, req, layout>> (Malformed!PropTokens, PropLayouts)
+		lineText := map[string]string{"kv": "key=v1", "kv2": "key=v2", "bare": "key", "blank": "", "comment": "# key=commented",
+			"eqonly": "=", "emptyval": "key=", "other": "other=x", "longer": "key2=wrong", "eqval": "key=a=b", "spaced": " key = v3",
+			"long": "zlong=" + strings.Repeat("x", 70000)}
+		toks, _ := c.Arg[0].([]interface{})
+		req, _ := c.Arg[1].(string)
+		layout, _ := c.Arg[2].(string)
+		lines := []string{}
+		for _, t := range toks {
+			txt, ok := lineText[fmt.Sprint(t)]
+			if !ok {
+				machinery("unknown property-file line token %v", t)
+			}
+			lines = append(lines, txt)
+		}
+		eol := "\n"
+		if layout == "crlf" {
+			eol = "\r\n"
+		}
+		content := strings.Join(lines, eol)
+		if len(lines) > 0 && layout != "nofinalnl" {
+			content += eol
+		}
+		switch layout {
+		case "lf", "crlf", "nofinalnl":
+		case "bom":
+			content = "\xef\xbb\xbf" + content
+		default:
+			machinery("unknown property-file layout %q", layout)
+		}
+		os.WriteFile(prop, []byte(content), 0o600)
+		m["file"] = "${property:" + prop + "#" + req + "}"
+	case "prop_dir":
+		m["file"] = "${property:" + dir + "#file}"
 	case "d_none":
 		m["file"] = "${property:" + prop + "#file}"
 	case "prop_nokey":
@@ -610,6 +650,9 @@ func mfRunConfigCase(c mfCase) mfLine {
 			}
 			if c.Cls == "d_none" && (conf.File != "/ammo.uri" || conf.Limit != 7) {
 				machinery("well-formed config decoded to %+v", conf)
+			}
+			if c.Cls == "propfile" {
+				evs = append(evs, mfEvent{"Value", trunc(conf.File, 100)})
 			}
 			evs = append(evs, mfEvent{"Stage", "construct"}, mfEvent{"End", "accepted"})
 		}
